@@ -354,3 +354,38 @@ package keeper
 //@   ensures[C08.estimate_no_persistent_change] wVersion[layer(sdk.UnwrapSDKContext(c))] == old(wVersion[layer(sdk.UnwrapSDKContext(c))]) && bankBal[layer(sdk.UnwrapSDKContext(c))] == old(bankBal[layer(sdk.UnwrapSDKContext(c))]) && bankSupply[layer(sdk.UnwrapSDKContext(c))] == old(bankSupply[layer(sdk.UnwrapSDKContext(c))]) && acctSeq[layer(sdk.UnwrapSDKContext(c))] == old(acctSeq[layer(sdk.UnwrapSDKContext(c))]) && acctExists[layer(sdk.UnwrapSDKContext(c))] == old(acctExists[layer(sdk.UnwrapSDKContext(c))])
 //@   ensures[C08.estimate_in_range] err == nil ==> (res != nil && res.Gas <= req.GasCap)
 //@   panics any
+
+// ---------------------------------------------------------------------------------------------
+// abci.go / keeper.go — begin / end block: outside per-transaction recovery, a panic here halts the chain (C20)
+// ---------------------------------------------------------------------------------------------
+//@ import storetypes "cosmossdk.io/store/types"
+
+// Representation of the per-transaction receipts in the transient store (TRUSTED link between the summaries of the
+// store-backed setters above and the raw reads of GetTxReceiptsTransient): under the module's transient store key, the
+// entry of index i is present iff a non-empty receipt was recorded for i, and holds those bytes.
+//@ ghost func evmTransientKey() ref
+//@ axiom tr_receipt_representation: forall l int, i int :: kvHas[kvId(l, evmTransientKey())][trReceiptKeyB(i)] == trHasReceipt[l][i] && (trHasReceipt[l][i] ==> (kvVal[kvId(l, evmTransientKey())][trReceiptKeyB(i)] == trReceipt[l][i] && blen(trReceipt[l][i]) > 0))
+
+//@ func (k Keeper) GetTxReceiptsTransient(ctx sdk.Context) (receipts ethtypes.Receipts)
+//@   requires payload(k.transientKey) == evmTransientKey() && k.transientKey != nil
+//@   requires[C13.every_counted_tx_has_receipt] forall i int :: (0 <= i && i < trCount[layer(ctx)]) ==> (trHasReceipt[layer(ctx)][i] && rlpReceiptValid(trReceipt[layer(ctx)][i]))
+//@   modifies elems(type(*ethtypes.Receipt))
+//@   ensures[C13.all_receipts_loaded] len(receipts) == trCount[layer(ctx)]
+//@   panics[C20.receipts_never_panic,C13.receipts_never_panic] never
+//@ loop 1
+//@   invariant txIdx <= txCount && len(receipts) == txIdx && (cap(receipts) == 0 || fresh(base(receipts)))
+
+//@ func (k Keeper) EmitBlockBloomEvent(ctx sdk.Context, bloom ethtypes.Bloom)
+//@   modifies evlog[payload(ctx.EventManager())]
+//@   panics[C20.bloom_event_never_panics] never
+
+//@ func (k *Keeper) EndBlock(ctx sdk.Context)
+//@   requires k != nil && payload(k.transientKey) == evmTransientKey() && k.transientKey != nil
+//@   requires[C13.every_counted_tx_has_receipt] forall i int :: (0 <= i && i < trCount[layer(ctx)]) ==> (trHasReceipt[layer(ctx)][i] && rlpReceiptValid(trReceipt[layer(ctx)][i]))
+//@   modifies evlog[payload(ctx.EventManager())], elems(type(*ethtypes.Receipt))
+//@   panics[C20.end_block_never_panics] never
+
+//@ func (k Keeper) SetBlockHashForCurrentBlockAndPruneOld(ctx sdk.Context)
+//@   requires k.storeKey != nil && (ctx.BlockHeight() != 0 ==> ctx.HeaderHash() != nil)
+//@   modifies kvHas[kvId(layer(ctx), payload(k.storeKey))], kvVal[kvId(layer(ctx), payload(k.storeKey))]
+//@   panics[C20.block_hash_never_panics] never
